@@ -71,8 +71,13 @@ def gen(rng, tier):
             for n2 in nss:
                 if rng.random() < 0.8:
                     ops.append(['connect', p, n2])
-        elif k < 0.92:
+        elif k < 0.90:
             ops.append(['connect', p, ns])
+        elif k < 0.93:
+            # a further namespace is requested and REFUSED by the
+            # application's connect handler: the client's sessions on its
+            # other namespaces are none of that request's business
+            ops.append(['refused', p, ns, rng.choice(['false', 'cre'])])
         else:
             ops.append(['mutate_get', p, ns, cnt])
         if rng.random() < 0.12:
@@ -137,6 +142,15 @@ def _run(case, cfg, w):
                     except Exception as e:   # noqa
                         disc_reads.append((sid, ns, e))
             srv.on('disconnect', on_disc, namespace=ns)
+    refuse_next = {}
+    for ns in cfg['nss']:
+        def on_connect(sid, environ, *a, ns=ns):
+            how = refuse_next.pop(ns, None)
+            if how == 'false':
+                return False
+            if how == 'cre':
+                raise socketio.exceptions.ConnectionRefusedError('no')
+        srv.on('connect', on_connect, namespace=ns)
     sc = Scene(w)
     model = {}          # (sid, ns) -> dict (what was last saved)
     # shadow of the known defect: what an implementation that keys the
@@ -230,6 +244,21 @@ def _run(case, cfg, w):
                 # a newly connected sid starts with an empty session
                 read(sid, ns, where + ' (first read of a new sid)',
                      fresh=True)
+        elif k == 'refused':
+            _, p, ns, how = op
+            if not sc.alive(p) or sc.sid(p, ns):
+                continue
+            refuse_next[ns] = how
+            got = sc.connect(p, ns)
+            refuse_next.pop(ns, None)
+            w.rec.count('fault.connect_refused')
+            if got is not None:
+                v.add('refused_connect_accepted', where)
+                sc.forget(p, ns)
+            for (pp, n2), sid2 in sc.live_sids():
+                if pp == p:
+                    read(sid2, n2, where + ' (after a refused request for '
+                         '%s)' % ns)
         elif k == 'save':
             _, p, ns, val = op
             sid = sc.sid(p, ns)
